@@ -119,14 +119,31 @@ def run(rep: Report, tier: str, only=None) -> None:
 	rep.extra.update({'programs': stats['programs'], 'disagreements_checked': stats['replayed'], 'equivalent': stats['unsat'], 'differing': stats['sat'], 'rejected_by_transpiler': stats['rejected'], 'outside_encodable_subset': stats['unsupported'],
 		'solver_unknown': stats['unknown'], 'witnesses_validated_with_gpp': stats['witnesses_checked'], 'per_category': per_cat, 'wall_s_transpile_and_solve': round(time.time() - t0, 1),
 		'trusted_base': ['z3 5.1.0', 'tv/sem.py + tv/fronts.py C++ subset semantics (validated against g++ on witnesses each run)', 'CPython ast', 'g++ -std=c++20 for replays']})
-	rep.check_recorded()
+	# recorded witnesses: an open finding is announced while it still reproduces, a repaired one must stay repaired
+	for e in rep.known_findings():
+		w = e.get('witness') or {}
+		if w.get('kind') != 'tv':
+			continue
+		reproduced = replay(w, quiet=True) == 1
+		rep.replays += 1
+		if e.get('status') == 'fixed':
+			o = rep.ob('regression', 'C', 'recorded witnesses of repaired defects (transpiled, compiled with g++, compared with CPython)')
+			o['cases'] += 1
+			if reproduced:
+				o['refuted'] += 1
+				rep.violation('regression', f'repaired defect is back: class={e["class"]} {e.get("what", "")}', {'property': 'C01', **w})
+			else:
+				o['confirmed'] += 1
+		elif e.get('status') == 'finding' and reproduced and e['class'] not in known_seen:
+			rep.known_finding(f'class={e["class"]} {e.get("what", "")} witness={w.get("source", "").strip()!r} {w.get("model")}')
 
 
-def replay(w: dict) -> int:
+def replay(w: dict, quiet: bool = False) -> int:
 	runner.ensure_venv()
 	with tempfile.NamedTemporaryFile('w', suffix='.json', delete=False) as f:
 		json.dump(w, f)
 	p = subprocess.run([runner.PY, WORKER, 'replay', f.name], capture_output=True, text=True, cwd=runner.REPO)
 	os.unlink(f.name)
-	print(p.stdout[-2000:])
+	if not quiet:
+		print(p.stdout[-2000:])
 	return 1 if 'REPRODUCED' in p.stdout else 0
